@@ -99,7 +99,7 @@ def gen_case(rng):
         cs = {'op': 'f_reduce', 'f': f, 'fn': 'var' if fn == 'std' else fn, 'axis': rng.choice([0, 1]), 'skipna': rng.random() < 0.6, 'ddof': rng.choice([0, 1]) if fn in ('var', 'std') else 0}
         if fn == 'std':
             cs['via'] = 'std'
-    elif r < 0.9:
+    elif r < 0.82:
         cs = {'op': 'f_cum', 'f': f, 'fn': rng.choice(['cumsum', 'cumprod']), 'axis': rng.choice([0, 1]), 'skipna': rng.random() < 0.6}
     else:
         cs = {'op': 'f_arg', 'f': f, 'fn': rng.choice(['argmin', 'argmax']), 'axis': rng.choice([0, 1]), 'skipna': True}
